@@ -2627,6 +2627,10 @@ class FileSet:
                 # later.
                 v = v.replace("{", "{{").replace("}", "}}")
 
+                # Keep the regex of the placeholder together (it might
+                # contain alternatives) but without capturing it again:
+                v = "(?:" + v + ")"
+
                 changed_part = path[split_index:].replace("{" + p + "}", v)
                 path = path[:split_index] + changed_part
         try:
